@@ -215,6 +215,7 @@ pub fn c02_c03(o: &Oracle, thorough: bool, seed: u64, rep: &Report, witness_prop
     let decider6: Vec<AtomicU64> = (0..6).map(|_| AtomicU64::new(0)).collect();
     for &n in &[6usize, 7usize] {
         let hands = AtomicU64::new(0);
+        let all_order_hands = AtomicU64::new(0);
         let total = choose(52, n);
         let stride: u64 = if thorough { 1 } else if n == 6 { 1 } else { 16 };
         par_subsets(n, |idx, ctr| {
@@ -240,6 +241,49 @@ pub fn c02_c03(o: &Oracle, thorough: bool, seed: u64, rep: &Report, witness_prop
             }
             if n == 7 || thorough || pick % 8 == 0 {
                 orders.push(seeded.clone());
+            }
+            // ... in descending and ascending order of the words themselves (what sort() produces: rank-major,
+            // unlike deck order, which is suit-major)
+            {
+                let mut by_word = canon.clone();
+                by_word.sort_unstable_by(|a, b| b.cmp(a));
+                orders.push(by_word.clone());
+                if n == 6 || thorough || pick % 4 == 1 {
+                    by_word.reverse();
+                    orders.push(by_word);
+                }
+            }
+            // ... and in EVERY slot order for every hand whose best five cards are a straight flush and for a
+            // seeded 1/2048 of the others (value / witness only)
+            if exp <= 10 || (pick >> 20) % 2048 == 0 {
+                all_order_hands.fetch_add(1, Ordering::Relaxed);
+                let perms = if n == 6 { &perms6 } else { &perms7 };
+                for p in perms.iter() {
+                    let w: Vec<u32> = p.iter().map(|&k| canon[k]).collect();
+                    let h = Hand::from_words(&w);
+                    if witness_prop {
+                        match guarded(|| rank_value_and_hand(&h)) {
+                            Ok(r) => {
+                                if !check_witness(o, rep, &w, &r.witness, r.value) {
+                                    viol(rep, json!({"op":"rankn","words":hilo_arr(&w)}), json!({"witness_ok": true}),
+                                         "reported best hand is not five distinct input cards in descending order worth the reported value");
+                                }
+                            }
+                            Err(_) => viol(rep, json!({"op":"rankn","words":hilo_arr(&w)}), json!({"value": exp}), "ranking unwound"),
+                        }
+                    } else {
+                        match guarded(|| (rank_value(&h), rank_value_validated(&h))) {
+                            Ok((a, c)) => {
+                                if a != exp || c != exp {
+                                    viol(rep, json!({"op":"rankn","words":hilo_arr(&w)}), json!({(if a != exp { "v_value" } else { "v_validated" }): exp}),
+                                         "six/seven-card value differs from the best five-card value contained in the hand (every-slot-order family)");
+                                }
+                            }
+                            Err(_) => viol(rep, json!({"op":"rankn","words":hilo_arr(&w)}), json!({"value": exp}), "ranking unwound"),
+                        }
+                    }
+                }
+                rep.eval(perms.len() as u64);
             }
             for w in &orders {
                 let h = Hand::from_words(w);
@@ -290,6 +334,8 @@ pub fn c02_c03(o: &Oracle, thorough: bool, seed: u64, rep: &Report, witness_prop
         let hn = hands.load(Ordering::Relaxed);
         rep.distinct(hn);
         rep.space(&format!("{}-card subsets of the deck", n), hn == total, hn);
+        let an = all_order_hands.load(Ordering::Relaxed);
+        rep.space(&format!("{}-card hands in every one of their {} slot orders (all sampled hands whose best five are a straight flush, 1/2048 of the rest)", n, if n == 6 { 720 } else { 5040 }), false, an);
     }
     let d7: Vec<u64> = decider.iter().map(|a| a.load(Ordering::Relaxed)).collect();
     let d6: Vec<u64> = decider6.iter().map(|a| a.load(Ordering::Relaxed)).collect();
@@ -336,6 +382,8 @@ pub fn c09(o: &Oracle, thorough: bool, seed: u64, rep: &Report) {
     };
     rep.eval(n5 as u64);
     let v6: Vec<std::sync::atomic::AtomicU16> = (0..n6).map(|_| std::sync::atomic::AtomicU16::new(0)).collect();
+    let perms6 = permutations(6);
+    let extra = AtomicU64::new(0);
     par_subsets(6, |idx, ctr| {
         let w = o.words(idx);
         let v = guarded(|| rank_value(&Hand::from_words(&w))).unwrap_or(u16::MAX);
@@ -344,6 +392,24 @@ pub fn c09(o: &Oracle, thorough: bool, seed: u64, rep: &Report) {
             viol(rep, json!({"op":"rankn","words":hilo_arr(&rev)}), json!({"value": v}), "six-card value depends on the slot order");
         }
         v6[colex_rank(idx)].store(v, Ordering::Relaxed);
+        {
+            let mut by_word = w.clone();
+            by_word.sort_unstable_by(|a, b| b.cmp(a));
+            let mut alts = vec![by_word.clone()];
+            by_word.reverse();
+            alts.push(by_word);
+            if v <= 10 || mix(seed ^ 0x66, ctr) % 2048 == 0 {
+                for p in perms6.iter() {
+                    alts.push(p.iter().map(|&k| w[k]).collect());
+                }
+            }
+            for alt in &alts {
+                if guarded(|| rank_value(&Hand::from_words(alt))).unwrap_or(u16::MAX) != v {
+                    viol(rep, json!({"op":"rankn","words":hilo_arr(alt)}), json!({"value": v}), "six-card value depends on the slot order");
+                }
+            }
+            extra.fetch_add(alts.len() as u64, Ordering::Relaxed);
+        }
         let mut m = u16::MAX;
         let mut sub = [0usize; 5];
         for d in 0..6 {
@@ -380,7 +446,21 @@ pub fn c09(o: &Oracle, thorough: bool, seed: u64, rep: &Report) {
         // the value may not depend on the slot order: ascending card order and a seeded order as well
         let rev: Vec<u32> = w.iter().rev().cloned().collect();
         let shuf: Vec<u32> = perms7[(mix(seed ^ 0x77, ctr) % 5040) as usize].iter().map(|&k| w[k]).collect();
-        for alt in [&rev, &shuf] {
+        let mut alts: Vec<Vec<u32>> = vec![rev, shuf];
+        {
+            let mut by_word = w.clone();
+            by_word.sort_unstable_by(|a, b| b.cmp(a));
+            alts.push(by_word.clone());
+            by_word.reverse();
+            alts.push(by_word);
+            if v <= 10 || mix(seed ^ 0x67, ctr) % 2048 == 0 {
+                for p in perms7.iter() {
+                    alts.push(p.iter().map(|&k| w[k]).collect());
+                }
+            }
+            extra.fetch_add(alts.len() as u64, Ordering::Relaxed);
+        }
+        for alt in alts.iter() {
             let va = guarded(|| rank_value(&Hand::from_words(alt))).unwrap_or(u16::MAX);
             if va != v {
                 viol(rep, json!({"op":"deal","words":hilo_arr(alt)}), json!({"v7": v}), "seven-card value depends on the slot order, so it is not the smallest of its six-card values in every order");
@@ -403,7 +483,8 @@ pub fn c09(o: &Oracle, thorough: bool, seed: u64, rep: &Report) {
         }
     });
     let h = hands.load(Ordering::Relaxed);
-    rep.eval(h * 10);
+    rep.eval(h * 10 + extra.load(Ordering::Relaxed));
+    rep.note("slot orders: deck order, reversed, seeded, word-descending, word-ascending for every hand; every slot order (720 / 5040) for every straight-flush hand and a seeded 1/2048 of the rest".to_string());
     rep.distinct(h);
     rep.space("seven-card subsets with all their six-card sub-hands", h == choose(52, 7), h);
 }
